@@ -15,9 +15,11 @@ VARIABLES C, L, R, phase
 
 Refs == {"main", "feat"}
 N == Len(C) + Len(L) + Len(R)
+\* new commits, resets of a reference to a commit recorded for it earlier, skip annotations and plain notes
 EntryChoices(view) ==
-    {[u |-> N + 1, k |-> k, ref |-> r, t |-> N + 1, tg |-> {}] : k \in {"ref", "prop"}, r \in Refs}
-    \cup {[u |-> N + 1, k |-> "ann", ref |-> "", t |-> 0, tg |-> {view[i].u}] : i \in {j \in DOMAIN view : view[j].k \in {"ref", "prop"}}}
+    {[u |-> N + 1, k |-> k, ref |-> r, t |-> N + 1, tg |-> {}, skip |-> FALSE] : k \in {"ref", "prop"}, r \in Refs}
+    \cup {[u |-> N + 1, k |-> "ref", ref |-> view[i].ref, t |-> view[i].t, tg |-> {}, skip |-> FALSE] : i \in {j \in DOMAIN view : view[j].k \in {"ref", "prop"}}}
+    \cup {[u |-> N + 1, k |-> "ann", ref |-> "", t |-> 0, tg |-> {view[i].u}, skip |-> sk] : i \in {j \in DOMAIN view : view[j].k \in {"ref", "prop"}}, sk \in BOOLEAN}
 
 Init == C = <<>> /\ L = <<>> /\ R = <<>> /\ phase = "C"
 Next ==
@@ -47,13 +49,20 @@ SyncGuarantees ==
         IN /\ MovesOnlyToRecorded(w, res.w) /\ NoRewindUnlessTold(C, L, R, w, res.w, ow) /\ RemoteOnlyExtended(w, res.w)
            /\ PublishedTogether(C, L, R, w, res.w) /\ RefusalChangesNothing(w, res)
 
-EJ(e) == [u |-> e.u, k |-> e.k, ref |-> e.ref, t |-> e.t, tg |-> SetToSeq(e.tg)]
+EJ(e) == [u |-> e.u, k |-> e.k, ref |-> e.ref, t |-> e.t, tg |-> SetToSeq(e.tg), skip |-> e.skip]
 LJ(s) == [i \in DOMAIN s |-> EJ(s[i])]
-Code(e) == (IF e.k = "ref" THEN 1 ELSE IF e.k = "prop" THEN 2 ELSE 3) + (IF e.ref = "feat" THEN 4 ELSE 0) + 8 * Cardinality(e.tg) + SumSet(e.tg)
+Code(e) == (IF e.k = "ref" THEN 1 ELSE IF e.k = "prop" THEN 2 ELSE 3) + (IF e.skip THEN 16 ELSE 0) + (IF e.t # e.u THEN 32 ELSE 0) + (IF e.ref = "feat" THEN 4 ELSE 0) + 8 * Cardinality(e.tg) + SumSet(e.tg)
 SeqCode(s, m) == SumSet({(i + m) * (i + m) * Code(s[i]) + i : i \in DOMAIN s})
 Weight == SeqCode(C, 1) + SeqCode(L, 3) + SeqCode(R, 6)
 Interesting == L # <<>> /\ R # <<>>
-Emit == IF phase = "R" /\ C # <<>> /\ (IF Interesting THEN Weight % EmitMod = EmitRes ELSE Weight % (EmitMod * 8) = EmitRes)
-        THEN PrintT(ToJson([t |-> "SCN", C |-> LJ(C), L |-> LJ(L), R |-> LJ(R), kind |-> ReconcileKind(C, L, R)]))
+\* shapes that are always worth a replay: a reference reset to an earlier commit on one side while the other side revokes a
+\* shared entry of it; an entry of a suffix carrying both a revocation and a later plain note
+ResetVsRevoke == \E i \in DOMAIN L : L[i].k = "ref" /\ L[i].t # L[i].u /\ \E j \in DOMAIN R : R[j].k = "ann" /\ R[j].skip
+                                                        /\ \E c \in DOMAIN C : C[c].u \in R[j].tg /\ C[c].ref = L[i].ref
+NoteAfterSkip(S) == \E i, j \in DOMAIN S : i < j /\ S[i].k = "ann" /\ S[j].k = "ann" /\ S[i].skip /\ ~S[j].skip /\ S[i].tg = S[j].tg
+                                            /\ \E x \in DOMAIN S : S[x].u \in S[i].tg
+Special == ResetVsRevoke \/ NoteAfterSkip(L) \/ NoteAfterSkip(R)
+Emit == IF phase = "R" /\ C # <<>> /\ ((Special /\ Weight % 3 = EmitRes % 3) \/ (IF Interesting THEN Weight % EmitMod = EmitRes ELSE Weight % (EmitMod * 8) = EmitRes))
+        THEN PrintT(ToJson([t |-> "SCN", C |-> LJ(C), L |-> LJ(L), R |-> LJ(R), kind |-> ReconcileKind(C, L, R), special |-> Special]))
         ELSE TRUE
 =============================================================================
